@@ -324,7 +324,7 @@ def _run(ctx):
     ex = waterlib.prepare_examples(ctx, extreme_rain=False)
     rnd = random.Random(ctx.seed * 7919 + 10)
     table = read_table()
-    n = 240 if ctx.thorough else 44
+    n = 4000 if ctx.thorough else 44
     specials = ["f18", "pp-fert", "pp-till", "pre-till", "pre-irr"]
     cases = [make_case(rnd, i, table, specials[i - n] if i >= n else None) for i in range(n + len(specials))]
     lines = [write_project(ex, c) for c in cases]
@@ -442,7 +442,7 @@ def correspond(ctx):
         c.bump("fired", len(cs["ev"]))
     tab = "Definition tab : list (frow float) := %s." % _table_coq(table)
     items = []
-    shard = 4
+    shard = 16 if ctx.thorough else 4
     for k in range(0, len(good), shard):
         body = HDR + [tab, "Definition cases : list c10_run := [\n%s\n]." % ";\n".join(_coq_run(cs, slots) for cs in good[k:k + shard]),
                       "Definition M := Eval vm_compute in mismatches (c10_check tab) %d%%nat cases." % k, "Print M."]
